@@ -137,6 +137,16 @@ static void vals(ygm::comm& w, uint64_t seed, int rounds) {
         emit(round, "bcast_str:" + std::to_string(root), in, b);
       }
       same_test<std::string>(w, g, round, "str", in);
+      // the public transfer helpers of comm, directly: mpi_bcast from every root, mpi_send/mpi_recv ping-pong between (2k, 2k+1)
+      for (int root = 0; root < g_size; ++root) {
+        w.barrier();
+        emit(round, "mpi_bcast:" + std::to_string(root), in, w.mpi_bcast(m, root, w.get_mpi_comm()));
+      }
+      w.barrier();
+      std::string got = m;
+      if (g_rank % 2 == 0 && g_rank + 1 < g_size) { w.mpi_send(m, g_rank + 1, 3, w.get_mpi_comm()); got = w.mpi_recv<std::string>(g_rank + 1, 4, w.get_mpi_comm()); }
+      else if (g_rank % 2 == 1) { got = w.mpi_recv<std::string>(g_rank - 1, 3, w.get_mpi_comm()); w.mpi_send(got + m, g_rank - 1, 4, w.get_mpi_comm()); }
+      emit(round, "sendrecv", in, got);
     }
     {  // vector<pair<string,int>>
       auto in = gen_vecs(g); const vec_t m = in[g_rank];
